@@ -1,6 +1,7 @@
 package main
 
 import (
+	"crypto/sha1"
 	"fmt"
 	"go/types"
 	"sort"
@@ -345,7 +346,7 @@ func (U *Universe) lit(s string) string {
 	if c, ok := U.lits[s]; ok {
 		return c
 	}
-	c := fmt.Sprintf("lit%d", len(U.lits))
+	c := fmt.Sprintf("lit%x", sha1.Sum([]byte(s)))[:11]
 	// readable suffix
 	var sb strings.Builder
 	for _, r := range s {
@@ -586,7 +587,22 @@ func (U *Universe) fnConst(key string) string {
 	return c
 }
 
-func (U *Universe) litDecls() string {
+// litDeclsFor: the declarations of only those string literals whose constants occur in the given texts, so that
+// a function's verification conditions do not depend on which other functions were verified in the same process.
+func (U *Universe) litDeclsFor(texts ...string) string {
+	return U.litDeclsFiltered(func(c string) bool {
+		for _, t := range texts {
+			if strings.Contains(t, c) {
+				return true
+			}
+		}
+		return false
+	})
+}
+
+func (U *Universe) litDecls() string { return U.litDeclsFiltered(func(string) bool { return true }) }
+
+func (U *Universe) litDeclsFiltered(keep func(string) bool) string {
 	var b strings.Builder
 	var fns []string
 	for c := range U.fnConsts {
@@ -599,8 +615,13 @@ func (U *Universe) litDecls() string {
 	if len(fns) > 1 {
 		fmt.Fprintf(&b, "(assert (distinct Fn.nil %s))\n", strings.Join(fns, " "))
 	}
-	for _, s := range U.litOrder {
+	order := append([]string(nil), U.litOrder...)
+	sort.Slice(order, func(i, j int) bool { return U.lits[order[i]] < U.lits[order[j]] })
+	for _, s := range order {
 		c := U.lits[s]
+		if !keep(c) {
+			continue
+		}
 		fmt.Fprintf(&b, "(declare-const %s Str)\n(assert (= (Str.len %s) %d))\n", c, c, len(s))
 		for i := 0; i < len(s); i++ {
 			fmt.Fprintf(&b, "(assert (= (Str.nth %s %d) %d))\n", c, i, s[i])
